@@ -1,5 +1,5 @@
 From Coq Require Import ExtrOcamlBasic.
-From ChibiV Require Import Common.ExtractBase C12.Model C12.Spec C12.PortModel C12.RangeModel.
+From ChibiV Require Import Common.ExtractBase C12.Model C12.Spec C12.PortModel C12.RangeModel C12.FilePortModel C12.MapModel C12.HistModel2 C12.CiModel.
 Extraction "model.ml" ext_base
   sexp_utf8_initial_byte_count sexp_utf8_char_byte_count sexp_utf8_encode_char sexp_string_utf8_ref
   verif_c12_unbox_character verif_c12_make_character
@@ -8,4 +8,7 @@ Extraction "model.ml" ext_base
   cursor_next cursor_prev cursor_end step run spec_step spec_run
   read_byte read_char peek_char read_string read_line open_string_port open_fd_port pending
   write_char write_chars write_bytes out_bytes open_output_string
-  op_write_string display_string write_string_io string_to_utf8_range string_fill string_copy_bang string_map string_cmp.
+  op_write_string display_string write_string_io string_to_utf8_range string_fill string_copy_bang string_map string_cmp
+  fgetc fread_char fpeek_char fread_string open_file_port fpending
+  string_map_n for_each_args xstep xspec_step xrun xspec_run xpreb hist_okb
+  string_cmp_ci string_foldcase_cps char_foldcase fold_char string_foldcase string_ci_cmp_full.
